@@ -178,11 +178,18 @@ impl ArgMatcher {
                 Some(compare_macro) => {
                     let span = pat_macro.mac.path.span();
                     let tokens = pat_macro.mac.tokens;
-                    let local_ident = syn::Ident::new(&format!("l{local_counter}"), span);
+                    // hygienic like a `macro_rules!` local: a user binding that happens to be
+                    // called `l0` must not shadow the operand inside the generated match guard.
+                    let local_ident = syn::Ident::new(
+                        &format!("l{local_counter}"),
+                        span.resolved_at(proc_macro2::Span::mixed_site()),
+                    );
                     *local_counter += 1;
 
-                    let pat_bind_ident =
-                        syn::Ident::new(&format!("m{index}"), pat_macro.mac.path.span());
+                    let pat_bind_ident = syn::Ident::new(
+                        &format!("m{index}"),
+                        span.resolved_at(proc_macro2::Span::mixed_site()),
+                    );
 
                     Self::Compare(CompareMatcher {
                         span,
